@@ -681,6 +681,51 @@ def mutate_targeted(rng, doc):
     return first + rest
 
 
+def boundary_families(rng):
+    """Hand-built explicit documents around rules that random models reach rarely: pulses with several sources
+    timed at the start / end of each source in either listing order; ancestors that start or end exactly at
+    the descendant's start; migrations bounded by the younger deme's start."""
+    out = []
+
+    def ep(size, end):
+        return dict(end_time=end, start_size=size, end_size=size, size_function="constant", selfing_rate=0, cloning_rate=0)
+
+    def deme(name, start, anc, props, end=0, size=100):
+        return dict(name=name, description="", start_time=start, ancestors=anc, proportions=props, epochs=[ep(size, end)])
+    INF_ = float("inf")
+    for tb, tc in ((100, 80), (80, 100), (100, 100), (100.0, 99.99999999999999)):
+        base = dict(description="", time_units="generations", generation_time=1, doi=[], metadata={},
+                    demes=[deme("A", INF_, [], []), deme("B", tb, ["A"], [1]), deme("C", tc, ["A"], [1]),
+                           deme("D", INF_, [], [])], migrations=[], pulses=[])
+        for srcs in (["B", "C"], ["C", "B"]):
+            for t in sorted(set([tb, tc, down(float(min(tb, tc))), up(float(max(tb, tc))), 1])):
+                d = copy.deepcopy(base)
+                d["pulses"] = [dict(sources=srcs, dest="D", time=t, proportions=[0.1, 0.2])]
+                out.append(("family.pulse-sources-at-start", d))
+        # destination timed at its own end, sources timed at their end
+        d = copy.deepcopy(base)
+        d["demes"][1]["epochs"][0]["end_time"] = 10
+        for t in (10, up(10.0), down(10.0)):
+            e = copy.deepcopy(d)
+            e["pulses"] = [dict(sources=["C", "B"], dest="D", time=t, proportions=[0.1, 0.2])]
+            out.append(("family.pulse-source-at-end", e))
+            e = copy.deepcopy(d)
+            e["pulses"] = [dict(sources=["C"], dest="B", time=t, proportions=[0.1])]
+            out.append(("family.pulse-dest-at-end", e))
+        # a grandchild starting exactly at its ancestor's start / end
+        for st in (tb, up(float(tb)), down(float(tb)), 10):
+            e = copy.deepcopy(d)
+            e["demes"].append(deme("E", st, ["B"], [1]))
+            out.append(("family.descendant-at-ancestor-bound", e))
+        # migration bounded by the younger deme
+        for st in (tb, up(float(tb)), min(tb, tc), down(float(min(tb, tc)))):
+            e = copy.deepcopy(base)
+            e["migrations"] = [dict(source="B", dest="C", start_time=st, end_time=0, rate=0.1)]
+            out.append(("family.migration-at-younger-start", e))
+    rng.shuffle(out)
+    return out
+
+
 def sawtooth_family(rng):
     """consecutive exponential epochs with equal growth rate and a size jump between
     them (zigzag / sawtooth histories), optionally with a second deme"""
